@@ -620,6 +620,11 @@ def run_check(spec, tier, seed):
         "violations": 1 if exit_code else 0,
     }
     ev["coverage"].update(ctx.get("coverage_extra", {}))
+    if obligations == 0:
+        # no theorem is pinned for this property yet: report the exploration-style counts only
+        for k in ("obligations", "discharged"):
+            ev["coverage"].pop(k, None)
+        ev["coverage"]["theorems_pinned"] = 0
     os.makedirs(os.path.join(ROOT, "evidence"), exist_ok=True)
     with open(os.path.join(ROOT, "evidence", prop + ".json"), "w") as f:
         json.dump(ev, f, indent=1)
